@@ -519,16 +519,18 @@ func checkC04(r *vt.Run) {
 		masterFirst bool
 		cascade     bool
 		manager     string
-		nvar        int // number of varying replicas
+		nvar        int // number of varying replicas; -1: ALL replicas vary together (the same situation for every one)
 		kinds       []int
 	}
 	var cfgs []cfg
 	if r.Quick() {
 		cfgs = []cfg{{3, 1, true, false, "h1", 1, nil}, {3, 1, false, true, "h2", 1, nil}, {4, 2, true, false, "h1", 1, nil},
-			{3, 1, true, false, "h1", 2, []int{qHealthy, qSQLError, qMarked}}}
+			{3, 1, true, false, "h1", 2, []int{qHealthy, qSQLError, qMarked}},
+			{4, 2, true, false, "h1", -1, nil}, {4, 2, false, false, "h1", -1, nil}}
 	} else {
 		cfgs = []cfg{{3, 1, true, false, "h1", 2, nil}, {3, 1, false, true, "h1", 1, nil}, {3, 2, true, false, "h2", 1, nil}, {2, 1, true, false, "h1", 1, nil},
-			{4, 2, true, false, "h1", 2, nil}, {4, 2, false, false, "h2", 1, nil}, {4, 3, false, true, "h1", 1, nil}, {5, 2, true, false, "h1", 1, nil}, {5, 3, false, false, "h2", 1, nil}}
+			{4, 2, true, false, "h1", 2, nil}, {4, 2, false, false, "h2", 1, nil}, {4, 3, false, true, "h1", 1, nil}, {5, 2, true, false, "h1", 1, nil}, {5, 3, false, false, "h2", 1, nil},
+			{4, 2, true, false, "h1", -1, nil}, {4, 2, false, false, "h1", -1, nil}, {5, 3, true, false, "h1", -1, nil}, {3, 2, true, false, "h1", -1, nil}}
 	}
 	var cs []string
 	for _, c := range cfgs {
@@ -542,7 +544,11 @@ func checkC04(r *vt.Run) {
 		if cf.manager != "h1" {
 			nrep = cf.n - 2
 		}
+		uniform := cf.nvar < 0
 		nvar := min(cf.nvar, nrep)
+		if uniform {
+			nvar = 1
+		}
 		if nvar < 1 {
 			continue
 		}
@@ -559,6 +565,12 @@ func checkC04(r *vt.Run) {
 		}
 		mk := func(code int) []int {
 			s := make([]int, nrep)
+			if uniform { // the whole replica set leaves / returns / breaks at once
+				for i := range s {
+					s[i] = kinds[code%nk]
+				}
+				return s
+			}
 			for i := 0; i < nvar; i++ {
 				s[i] = kinds[code%nk]
 				code /= nk
